@@ -12,6 +12,15 @@ def headEnd : Bytes → Option Nat
   | _ :: r => (headEnd r).map (· + 1)
   | [] => none
 
+/-- the only status line in scope: what precedes the reason phrase of a 101 response.  The real client parser checks the
+    response byte by byte; of that, the model keeps this much: the bytes seen so far must agree with this prefix, anything
+    else is an HTTP parse error (class `http`) and the connection is dead.  (The rest of the HTTP grammar is C06–C08's.) -/
+def statusPrefix : Bytes := str "HTTP/1.1 101 "
+
+def agreesWithPrefix (buf : Bytes) : Bool :=
+  let n := min buf.length statusPrefix.length
+  buf.take n == statusPrefix.take n
+
 structure UpS where
   head : Bytes := []          -- response bytes seen so far (while not upgraded)
   upgraded : Bool := false
@@ -24,6 +33,7 @@ def upParse (g : Cfg) (e : Env) (u : UpS) (data : Bytes) : UpS × PR :=
     ({ u with s := r.s }, r)
   else
     let buf := u.head ++ data
+    if !agreesWithPrefix buf then ({ u with head := buf }, ⟨u.s, [], some .http⟩) else
     match headEnd buf with
     | none => ({ u with head := buf }, ⟨u.s, [], none⟩)
     | some n =>
